@@ -31,23 +31,35 @@ HEAP_TRACE = {"quick": "-Xmx1g -XX:ParallelGCThreads=2", "thorough": "-Xmx2g -XX
 TIER = "quick"
 
 
-def validate(sc, files, cfg="BatchScheduleTrace.cfg", parallel=6, timeout=1800, nparts=12):
+_RE_COV = re.compile(r"^<(Tr\w+) line .*>: (\d+):(\d+)", re.M)
+TRACE_ACTIONS = ["TrReset", "TrNewQuery", "TrSetTimes", "TrClone", "TrTask", "TrHist", "TrHistRet", "TrStart", "TrStopped", "TrSilent"]
+
+
+def validate(sc, files, cfg="BatchScheduleTrace.cfg", parallel=6, timeout=1800, nparts=12, coverage=False):
     """V.validate_traces plus collection of the IMPL-DRIFT reports (Strict = "report": the code-shaped
     model disagrees with an observation that the verdict level accepts; never a verdict)."""
     parts = []
     for f in files:
         parts += V.split_trace(f, nparts, sc)
     rej, kf, drift, states = [], set(), [], 0
+    cov = {a: 0 for a in TRACE_ACTIONS} if coverage else None
 
     def one(fp):
         return fp, V.run_tlc(sc, "BatchSchedule", "BatchScheduleTraceMC.tla", cfg, workers=1, timeout=timeout,
-                             env_extra={"TRACE_FILE": fp, "JAVA_TOOL_OPTIONS": HEAP_TRACE[TIER]})
+                             env_extra={"TRACE_FILE": fp, "JAVA_TOOL_OPTIONS": HEAP_TRACE[TIER]},
+                             extra_args=["-coverage", "1"] if coverage else None)
 
     t = time.time()
     with concurrent.futures.ThreadPoolExecutor(max_workers=parallel) as ex:
         for fp, res in ex.map(one, parts):
             states += res["distinct"]
             kf.update(res["kf"])
+            if coverage:
+                last = {}
+                for act, _, taken in _RE_COV.findall(res["out"]):
+                    last[act] = int(taken)          # TLC prints the table periodically: keep the final one
+                for act, n in last.items():
+                    cov[act] = cov.get(act, 0) + n
             lines = None
             for ln, what in _RE_DRIFT.findall(res["out"]):
                 if lines is None:
@@ -62,7 +74,7 @@ def validate(sc, files, cfg="BatchScheduleTrace.cfg", parallel=6, timeout=1800, 
                 rej.append((fp, None, res))
     V.log("trace validation %s: %d file(s), %d spec states, %d rejection(s), %d drift report(s), %.1fs" %
           (cfg, len(parts), states, len(rej), len(drift), time.time() - t))
-    return {"accepted": not rej, "rejections": rej, "kf": kf, "states": states, "drift": drift}
+    return {"accepted": not rej, "rejections": rej, "kf": kf, "states": states, "drift": drift, "coverage": cov}
 
 
 def _traces(lines):
@@ -166,10 +178,13 @@ def run(sc, tier, seed):
     out, meta = V.run_driver(sc, "c16", tier, seed)
     R.add_meta(meta)
     # verdict level (rejections) and drift level (IMPL-DRIFT reports, never a verdict) in one pass
-    val = validate(sc, meta["trace_files"])
+    val = validate(sc, meta["trace_files"], coverage=(tier == "thorough"))
     R.states += val["states"]
     R.handle_validation(val)
     extra = {"negative_controls": neg, "impl_drift": val["drift"]}
+    if val["coverage"] is not None:
+        extra["trace_action_steps"] = val["coverage"]
+        extra["trace_actions_not_exercised"] = sorted(a for a, n in val["coverage"].items() if n == 0)
     if val["drift"]:
         V.log("impl drift (not a verdict): the code-shaped model no longer predicts some observations, e.g. " + val["drift"][0])
     if val["accepted"]:
